@@ -242,6 +242,15 @@ def s_feeflow(F, res):
                         continue
                     if x.kind == "call" and (x.callee or "").startswith(pfn) and ".fee" in x.proj:
                         continue
+                    if x.kind == "call" and x.callee in ("std::option::Option::<T>::map_or", "std::option::Option::<T>::map", "std::option::Option::<T>::unwrap_or") and x.term["args"]:
+                        # `rounds.best.as_ref().map_or(0, |prev| prev.fee)`: the previous evaluation kept in a state struct (every
+                        # write of that field is judged with the loop exits); default 0, the closure reads `.fee`
+                        stf = e8_state._state_field(lf, ldu, x.term["args"][0])
+                        dflt = [mir.op_const(a_) for a_ in x.term["args"][1:] if mir.op_const(a_) is not None and "int" in mir.op_const(a_)]
+                        reads = any(any(q[0] == "f" and q[1] == "fee" and str(q[2]) == "tx3_tir::compile::CompiledTx" for q in (mir.op_place(y) or {"p": []})["p"])
+                                    for c_ in x.term.get("fnrefs") or () if c_ in F.fns for _, _, s2 in mir.stmts(F.fns[c_]) for y in mir.all_operands_of_rv(s2["rv"]))
+                        if stf and reads and all(d_.get("int") == 0 for d_ in dflt):
+                            continue
                     fed_ok = False
             if is_param and fed_ok:
                 why.append("apply_fees(attempt, fees) with fees = 0 | <evaluation returned by the pass function>.fee at every call")
